@@ -87,7 +87,7 @@ PROPS['C14'] = dict(
     level_text='tbd', level_note='tbd', assumptions=COMMON_ASSUMPTIONS,
 )
 PROPS['C15'] = dict(
-    unit_modules=[], driver_modules=['drivers.c15'], level='other',
+    unit_modules=['contracts.c15_lookup'], driver_modules=['drivers.c15'], level='other',
     level_text='tbd', level_note='tbd', assumptions=COMMON_ASSUMPTIONS,
 )
 
